@@ -246,7 +246,7 @@ def _configure():
         explanation="every operation's postcondition fixes the whole post-state as a function of the pre-state in which existing versions / child links are only ever extended (add_version_spec inserts a fresh key; all other outcomes leave the maps equal); lemma L.immutable",
         legs=[EXPLORE, SQLCONF, HTTP])
     cfg("C08", "proof", ["A4", "A6", "A11", "A13"], not_reached=[NR_SQL, NR_HTTP],
-        explanation="gcv.found / gcv.split / gcv.nosuch of the real Server::get_child_version share the spec fn accept() with av.accept_iff of Server::add_version",
+        explanation="gcv.found / gcv.split / gcv.nosuch of the real Server::get_child_version share the spec fn accept() with av.accept_iff of Server::add_version; gcv.answer_sound: for every placement of storage failures an answer is given only for an existing client and is \"found\" exactly when the parent has a child; on the SQLite side the child look-up binds (parent id, this client id) and decodes the row by column name (unit U6: dec.child.bound, dec.version)",
         legs=[EXPLORE, XCHECK])
     cfg("C09", "proof", ["A2", "A4", "A9", "A13"], not_reached=[NR_SQL, NR_MEM, "header parsing by actix"],
         explanation="frame clauses: every storage write is a whole-database equation cur' = cur[client := n]; every Server operation changes at most its own client's durable state (*.frame) through a transaction opened for its own id (E9 twin); the client id comes only from the header (hdr.ok); two-run lemma L.isolation",
@@ -283,7 +283,7 @@ def _configure():
     cfg("C17", "other", ["A9", "A14", "A15", "A13"], assumptions=[A["A14"], A["A15"]],
         not_reached=["flag / environment parsing (clap) and the option declaration command()", "socket binding and serving (actix HttpServer, the OS)", "sqlite/src/lib.rs (where the data directory is used)",
                      "the App factory closure's effect (which WebServer each worker's App is configured with)", "that the process observed from outside behaves as wired: only the bounded process leg looks at the running executable"],
-        explanation="the wiring in main() -- the only code between parsed options and the running server, and code no test executes -- is under contract: on the real main(), for EVERY value clap can hand over, the ServerConfig is built from exactly the configured snapshot targets, the allow-list and data directory reach WebServer::new / SqliteStorage::new unchanged (wire.server), and the server is started only after being bound to every configured address, in order, and to nothing else (wire.listen, loop invariant over the address list, no bound); below main, cfg.wiring / cfg.allowlist (U3, real WebServer::new) and server.new (U1, real Server::new) carry the configuration into the library handle every request is served with, and h.*.state says no request changes it. 'other', not 'proof': the statement is about a running process; parsing, sockets, SQLite and the factory closure are assumed (A14, A15) and only sampled by the process leg",
+        explanation="ServerArgs::new (option ids -> struct: args.new, proved on the real text over name-keyed clap stand-ins since the second session) and the wiring in main() -- the only code between parsed options and the running server, and code no test executes -- are under contract: on the real main(), for EVERY value clap can hand over, the ServerConfig is built from exactly the configured snapshot targets, the allow-list and data directory reach WebServer::new / SqliteStorage::new unchanged (wire.server), and the server is started only after being bound to every configured address, in order, and to nothing else (wire.listen, loop invariant over the address list, no bound); below main, cfg.wiring / cfg.allowlist (U3, real WebServer::new) and server.new (U1, real Server::new) carry the configuration into the library handle every request is served with, and h.*.state says no request changes it. 'other', not 'proof': the statement is about a running process; parsing, sockets, SQLite and the factory closure are assumed (A14, A15) and only sampled by the process leg",
         legs=[PROCESS, STANDINS])
     cfg("C18", "proof", ["A4", "A6", "A11", "A13"], not_reached=[NR_SQL],
         explanation="every non-mutating outcome (reads, conflict, declined snapshot, unknown client, refused request) leaves the whole transaction view / call log equal up to the fault counter",
